@@ -5,6 +5,7 @@ import IweModel.Model.Paths
 import IweModel.Model.Actions
 import IweModel.Model.Hints
 import IweModel.Model.Symbols
+import IweModel.Model.Cli
 
 namespace Iwe.GraphOps
 open Iwe Codec
@@ -51,7 +52,12 @@ def stateS (want : List String) (g : Graph) (nlines : List (String × Nat)) : Se
         :: .list (.atom "workspace" :: (Symbols.workspaceSymbols g (Paths.globalSearch sps (sps.map fun _ => 0) true)).map symS)
         :: keys.map fun k => .list (.str k :: (Symbols.documentSymbolsOf g ps k).map symS))
     else .list [.atom "symbols", .atom "skipped"]
-  .list [.atom "state", arena, keysS, titles, md, brefs, irefs, ranges, atS, metas, paths, spaths, hints, completions, symbols]
+  -- what `iwe contents` and `iwe paths --depth d` (d = 0‥6) print
+  let cli := if want.contains "cli" then
+      Sexp.list (.atom "cli" :: .list (.atom "contents" :: (Cli.contentsOutput g).map Sexp.str)
+        :: (List.range 7).map fun d => .list (.atom "paths" :: natS d :: (Cli.pathsOutput g d).map Sexp.str))
+    else .list [.atom "cli", .atom "skipped"]
+  .list [.atom "state", arena, keysS, titles, md, brefs, irefs, ranges, atS, metas, paths, spaths, hints, completions, symbols, cli]
 
 def entry? : Sexp → Except String (String × Nat × Document)
   | .list [.str k, n, d] => do return (k, ← nat? n, ← document? d)
